@@ -490,8 +490,7 @@ impl Vm {
 
         self.globenv
             .iter_slots()
-            .filter_map(|it| it.as_ptr().ok())
-            .for_each(|it| self.heap.mark(it));
+            .for_each(|it| self.heap.mark_vcell(it));
 
         self.stack
             .iter_to_sp()
